@@ -4,8 +4,23 @@
 Reading: "an operation on a qubit" = a method invoked on that simulated qubit
 (the seven single-qubit gates, both measurements, the control side of CNOT /
 CPHASE); the target of a two-qubit gate is not clocked by that call.  "Idle for
-t seconds" = clock reading at the operation minus the reading at the previous
-operation on the same simulated qubit (or its creation).
+t seconds" is measured from the simulated qubit's `last_accessed`, which the
+code sets at creation and at each noise application (= each operation ON that
+qubit while noise is enabled) and nowhere else: t = clock reading at the
+operation minus that reading.  Being locked, being the target of a gate, being
+a bystander in the register of someone else's two-qubit gate, or being re-homed
+into another register by a local merge does not restart it.
+
+Two stages.  (1) Single register (below): real `simulatedQubit` objects on one
+register that never changes.  (2) Node scenarios (`node_stage`): real virtual
+nodes on harness/simnet.py (one node, and two nodes with remotely simulated
+qubits); registers are merged by CNOT/CPHASE in both orders and qubits removed,
+so the operated qubit's register and position differ from those at its creation;
+operations are issued through the virtualQubit (qubit lock first, as a node
+does) and directly; oracle as in (1) against the LIVE register at the qubit's
+CURRENT position, plus: no engine call on an object that is not a register of a
+node, nobody else's idle clock moves; tie: the same (last_accessed, T1, draw,
+op, current position) goes to the `noise` driver.
 
 Real `simulatedQubit` objects on a real `stabilizerEngine`, created through the
 real settings object; `time` and `random` as seen from quantum.py's module
@@ -49,9 +64,10 @@ TRUSTED = [
 ASSUMPTIONS = [
     "an operation on a qubit = a method invoked on that simulatedQubit object: single-qubit gates, both "
     "measurements, control side of CNOT/CPHASE; the target of a two-qubit gate is not clocked by that call",
-    "idle time = clock reading at the operation minus the reading stored by the previous operation on the same "
-    "simulatedQubit (creation at first); a register merge creates new simulatedQubit objects and restarts the clock "
-    "(virtual.py:1000) — outside this property's anchors",
+    "idle time is measured from simulatedQubit.last_accessed, set at creation and at each noise application (each "
+    "operation on that qubit with noise enabled), by nothing else: locking, being target/bystander of a gate and local "
+    "register merges (same object re-homed) keep it; a merge ACROSS nodes (remote_merge_from, virtual.py:1000) creates "
+    "new simulatedQubit objects and restarts the clock — outside this property's anchors, not generated",
     "T1 > 0 and a clock that does not run backwards are the statement's domain; T1 <= 0 (T1 = 0 raises "
     "ZeroDivisionError before any engine call) and negative idle time are executed and tied to the model, and "
     "judged only for 'no Pauli appears when the rate is not positive'",
@@ -146,6 +162,10 @@ class World:
 
     def __init__(self):
         core.scratch_repo()
+        # the node scenarios (below) run real virtual nodes on harness/simnet.py, whose fake reactor has to be in
+        # place before any simulaqron module imports twisted's
+        from .. import simnet
+        simnet.install_reactor()
         import numpy as np
         from types import SimpleNamespace
         from simulaqron import settings
@@ -161,6 +181,33 @@ class World:
         self.mbit = 0
         stabilizer_states.randint = lambda a, b: self.mbit
         self.np_exp = np.exp
+        self.englog, self._depth = None, 0
+        self.res_count = lambda *a: None
+        self._spy_engine_class()
+
+    def _spy_engine_class(self):
+        """every outermost call of a public stabilizerEngine method is logged as (engine object, name, args) while
+        `englog` is a list — class level, so that also bound methods captured before the call are seen"""
+        w, cls = self, self.Engine
+        if getattr(cls, "_c19_spied", False):
+            return
+        for name, fn in list(vars(cls).items()):
+            if name.startswith("_") or not callable(fn) or isinstance(fn, (property, staticmethod, classmethod)):
+                continue
+
+            def make(name, fn):
+                def f(eng, *a, **k):
+                    if w.englog is not None and w._depth == 0:
+                        w.englog.append((eng, name, a))
+                    w._depth += 1
+                    try:
+                        return fn(eng, *a, **k)
+                    finally:
+                        w._depth -= 1
+                f.__name__, f.__doc__ = name, fn.__doc__
+                return f
+            setattr(cls, name, make(name, fn))
+        cls._c19_spied = True
 
     def engine(self, arr):
         e = self.Engine(self.node, 0, maxQubits=16)
@@ -426,7 +473,11 @@ def run(ctx):
     res.rule = ("single operations: grid of idle time t x T1 x every operation kind x draws just below/at/just above "
                 "each of p, 2p, 3p (the doubles the code compares with) plus interior points, noise on and off, on "
                 "random stabilizer pre-states of 1-4 qubits; histories of 6-14 operations on 2-4 qubits with "
-                "advancing (sometimes equal, sometimes backward) clock; out-of-domain T1 <= 0; "
+                "advancing (sometimes equal, sometimes backward) clock; out-of-domain T1 <= 0; node scenarios on real "
+                "virtual nodes: 9 directed layouts (registers merged by CNOT/CPHASE in both orders, new_qubit_inreg, "
+                "destructive measurement shifting positions, two nodes with remotely simulated qubits) x operated qubit "
+                "x operation kind x draw in each band, via virtualQubit (lock first) or directly; bystander family; "
+                "random one-node histories; "
                 "non-trivial = noise on or idle time > 0; distinct by (op, noisy, t, T1, draw, pre-state)")
     queries = []
     pool = {n: [random_state(w, rng, n) for _ in range(ctx.scale(6, 20))] for n in (1, 2, 3, 4)}
@@ -450,6 +501,11 @@ def run(ctx):
             ctx.noise_table = noise_calls.generate(core.REPO, core.LEAN_DIR)
         search(ctx, res, [])
         res.case(ctx.replay["input"])
+    elif ctx.replay and "steps" in ctx.replay.get("input", {}):
+        inp = ctx.replay["input"]
+        sc = {k: inp[k] for k in ("nodes", "T1", "t0", "steps")}
+        report_scenario(w, res, sc, queries, set(), shrink=False)
+        res.case(sc)
     elif ctx.replay:
         inp = ctx.replay.get("input", {})
         spy = Spy(w.engine(inp["pre_state"]))
@@ -500,6 +556,8 @@ def run(ctx):
         # ---- histories
         for _ in range(ctx.scale(40, 600)):
             history(ctx, w, res, rng, pool, queries)
+        # ---- real virtual nodes: re-homed qubits, operations through the virtual qubit, bystanders
+        node_stage(ctx, w, res, rng, queries)
 
     if ctx.lean_ok and queries:
         out = core.lean_run("noise", [q[0] for q in queries])
@@ -575,6 +633,528 @@ def history(ctx, w, res, rng, pool, queries):
             line = "run %d %d %d %d | %s" % (1 if n0 else 0, bits(t0), bits(l0), num0, " | ".join(s for s, _ in per_qubit[k]))
             want = "%d | %s" % (bits(qs[k].last_accessed), " | ".join(o for _, o in per_qubit[k]))
             queries.append((line, want, {"history of qubit": k, "steps": len(per_qubit[k]), "pre_state": pre}))
+
+
+# --------------------------------------------------------------------------
+# node scenarios: real virtual nodes; the qubit's register and position change between its creation and the
+# noisy operation, and operations are issued the way a node issues them (virtualQubit: qubit lock first)
+# --------------------------------------------------------------------------
+#
+# A scenario is a JSON-able dict {"nodes", "T1", "t0", "steps"}; steps are
+#   ["new", label, node]                       client call new_qubit (own register, position 0)
+#   ["inreg", label, other]                    new_qubit_inreg in the register of `other` (appended)
+#   ["send", label, node]                      client call send_qubit (the simulated qubit stays where it is)
+#   ["tick", dt]                               the scripted clock of quantum.py advances
+#   ["op", op, label, target|None, draw, mbit, via]
+#       via "virt": callRemote on the virtualQubit reference (apply_*, measure(inplace), cnot_onto/cphase_onto);
+#       via "sim":  the simulatedQubit method directly (as the single-register cases above do)
+# Every "op" is judged.  The harness keeps its OWN register book (which labels sit in which engine object, in which
+# order: a new qubit opens a register, a two-qubit gate between registers appends the target's register to the
+# control's, a destructive measurement removes the label) and its own idle clock per label (creation, then every
+# operation ON that qubit with noise enabled; being the target or a bystander of someone else's gate, or being
+# locked, does not restart it).
+
+VIRT_CALL = {"X": ("apply_X",), "K": ("apply_K",), "Y": ("apply_Y",), "Z": ("apply_Z",), "H": ("apply_H",),
+             "T": ("apply_T",), "rot": ("apply_rotation",) + ROT_ARGS, "measInplace": ("measure", True),
+             "meas": ("measure", False), "cnot": ("cnot_onto",), "cphase": ("cphase_onto",)}
+NODE_KEYS = ("raises", "stale-engine-call", "on-request-missing", "on-more-than-one", "on-other-register",
+             "on-other-qubit", "on-wrong-choice", "on-state", "other-qubit-clock", "bookkeeping")
+
+
+class NodeRun:
+    """one scenario on a fresh SimNet; `fails` collects (step index, key, what)"""
+
+    def __init__(self, w, sc):
+        from .. import simnet
+        self.S, self.w, self.sc = simnet, w, sc
+        self.net = simnet.SimNet(list(sc["nodes"]), max_qubits=8)     # (its first construction pins the settings)
+        w.settings.noisy_qubits = True
+        w.settings.t1 = sc["T1"]
+        w.clock.now = sc["t0"]
+        w.draws.x = 0.999
+        w.SS.randint = lambda a, b: w.mbit            # SimNet scripts the coin itself; ours again
+        self.cl = {n: self.net.client(n) for n in sc["nodes"]}
+        self.h = {}            # label -> {"ref", "vq", "node"}
+        self.regs = []         # harness's own book: {"eng": engine object, "sim": node name, "labels": [...]}
+        self.idle_since = {}
+        self.fails, self.queries, self.judged, self.reps = [], [], [], {}
+        self.dead = None
+
+    # -- helpers
+    def sim(self, lab):
+        vq = self.h[lab]["vq"]
+        return self.net.resolve(vq.simQubit)
+
+    def reg_of(self, lab):
+        for r in self.regs:
+            if lab in r["labels"]:
+                return r
+        return None
+
+    def live_engines(self):
+        return {id(e): e for nd in self.net.nodes.values() for e in nd.registers.values()}
+
+    def defined(self, st):
+        k = st[0]
+        if k == "new":
+            return st[1] not in self.h and st[2] in self.cl
+        if k == "inreg":
+            return st[1] not in self.h and self.reg_of(st[2]) is not None and \
+                self.h[st[2]]["node"] == self.reg_of(st[2])["sim"]
+        if k == "send":
+            return self.reg_of(st[1]) is not None and st[2] in self.cl and st[2] != self.h[st[1]]["node"]
+        if k == "tick":
+            return True
+        if k == "op":
+            op, lab, tgt, via = st[1], st[2], st[3], st[6]
+            if self.reg_of(lab) is None:
+                return False
+            if op in ("cnot", "cphase"):
+                if tgt is None or tgt == lab or self.reg_of(tgt) is None:
+                    return False
+                if self.h[tgt]["node"] != self.h[lab]["node"]:
+                    return False
+                R, T = self.reg_of(lab), self.reg_of(tgt)
+                if R["sim"] != T["sim"]:
+                    return False          # a merge across nodes re-creates the simulated qubits (clock restarts)
+                if via == "sim" and R is not T:
+                    return False
+            if via == "sim" and op == "meas":
+                return False              # would bypass the node's own bookkeeping
+            return True
+        return False
+
+    def run(self):
+        for i, st in enumerate(self.sc["steps"]):
+            if self.dead:
+                break
+            if not self.defined(st):
+                continue
+            try:
+                getattr(self, "do_" + st[0])(i, st)
+            except self.S.Hang as e:
+                self.fail(i, "hang", "step %r did not complete: %s" % (st, e), hard=True)
+        self.net.close()
+        return self
+
+    def fail(self, i, kind, what, hard=False):
+        st = self.sc["steps"][i]
+        key = "node:%s:%s:%s" % (st[6], st[1], kind) if st[0] == "op" else "node:%s:%s" % (st[0], kind)
+        self.fails.append((i, key, what))
+        if hard:
+            self.dead = key
+
+    def _adopt(self, i, lab, node, r):
+        vq = self.net.resolve(r)
+        if self.S.error_class(r) is not None or not hasattr(vq, "simQubit"):
+            self.fail(i, "raises", "set-up step failed: %s %s" % (self.S.error_class(r), self.S.error_text(r)[:200]), hard=True)
+            return None
+        self.h[lab] = {"ref": r, "vq": vq, "node": node}
+        return vq
+
+    def do_new(self, i, st):
+        _, lab, node = st
+        r = self.net.run(self.cl[node].callRemote("new_qubit"))
+        if self._adopt(i, lab, node, r) is None:
+            return
+        self.regs.append({"eng": self.sim(lab).register, "sim": node, "labels": [lab]})
+        self.idle_since[lab] = self.w.clock.now
+
+    def do_inreg(self, i, st):
+        _, lab, other = st
+        R = self.reg_of(other)
+        node = R["sim"]
+        vq = self.net.run(self.net.nodes[node].remote_new_qubit_inreg(R["eng"]))
+        if self.S.error_class(vq) is not None:
+            self.fail(i, "raises", "new_qubit_inreg failed: %s" % self.S.error_class(vq), hard=True)
+            return
+        r = self.net.run(self.cl[node].callRemote("get_virtual_ref", vq.num))
+        if self._adopt(i, lab, node, r) is None:
+            return
+        R["labels"].append(lab)
+        self.idle_since[lab] = self.w.clock.now
+
+    def do_send(self, i, st):
+        _, lab, to = st
+        h = self.h[lab]
+        num = self.net.run(self.cl[h["node"]].callRemote("send_qubit", h["ref"], to))
+        if self.S.error_class(num) is not None:
+            self.fail(i, "raises", "send_qubit failed: %s" % self.S.error_class(num), hard=True)
+            return
+        r = self.net.run(self.cl[to].callRemote("get_virtual_ref", num))
+        self._adopt(i, lab, to, r)
+
+    def do_tick(self, i, st):
+        self.w.clock.now = self.w.clock.now + st[1]
+
+    def do_op(self, i, st):
+        w, net, S = self.w, self.net, self.S
+        _, op, lab, tgtlab, x, mbit, via = st
+        two = op in ("cnot", "cphase")
+        R = self.reg_of(lab)
+        T = self.reg_of(tgtlab) if two else None
+        merge = two and T is not R
+        pos = R["labels"].index(lab)
+        tpos = None
+        if two:
+            tpos = (len(R["labels"]) + T["labels"].index(tgtlab)) if merge else R["labels"].index(tgtlab)
+        sq = self.sim(lab)
+        eng = R["eng"]
+        now = w.clock.now
+        t = now - self.idle_since[lab]
+        T1 = self.sc["T1"]
+        rep_base = {"failing_step": i, "op": op, "qubit": lab, "target": tgtlab, "via": via, "draw": x, "mbit": mbit,
+                    "idle_t": t, "T1": T1, "position_now": pos, "register_labels": list(R["labels"]),
+                    "merges_registers": bool(merge)}
+        # the code's own book must agree with ours (C02's subject; everything below presupposes it)
+        if sq.register is not eng or sq.num != pos or not sq.noisy or sq.T1 != T1:
+            self.fail(i, "bookkeeping", "before %s on %s: simulated qubit says register #%s position %r noisy=%r T1=%r, the "
+                      "history says register #%s position %d noisy T1=%r" % (op, lab, getattr(sq.register, "num", "?"), sq.num,
+                                                                               sq.noisy, sq.T1, getattr(eng, "num", "?"), pos, T1),
+                      hard=True)
+            return
+        pre = eng.qubitReg.to_array().astype(int).tolist()
+        preT = T["eng"].qubitReg.to_array().astype(int).tolist() if merge else None
+        last = sq.last_accessed
+        live_before = self.live_engines()
+        others = {l: self.sim(l) for r_ in self.regs for l in r_["labels"] if l != lab}
+        clocks_before = {l: o.last_accessed for l, o in others.items()}
+        w.clock.calls, w.draws.x, w.draws.calls, w.mbit = 0, x, 0, mbit
+        w.englog = []
+        try:
+            if via == "virt":
+                call = VIRT_CALL[op]
+                args = call[1:] + ((self.h[tgtlab]["ref"],) if two else ())
+                with w.np.errstate(all="ignore"):
+                    r = net.run(self.h[lab]["ref"].callRemote(call[0], *args))
+                    net.settle()
+                exc, ret = S.error_class(r), (None if S.error_class(r) else r)
+                if exc:
+                    rep_base["exception_text"] = S.error_text(r)[:200]
+            else:
+                exc, ret = None, None
+                try:
+                    with w.np.errstate(all="ignore"):
+                        ret = invoke(sq, None, op, pos, tpos, on_engine=False)
+                except Exception as e:                                # noqa: BLE001 — judged below
+                    exc = type(e).__name__
+                    rep_base["exception_text"] = str(e)[:200]
+        finally:
+            log, w.englog = w.englog, None
+            w.draws.x = 0.999
+        live_after = self.live_engines()
+        self.judged.append(i)
+
+        eop = "measInplace" if op == "meas" else op       # what the simulated qubit is asked to do
+        want = (ENGINE[eop], call_args(eop, pos, tpos))
+        F = [(e, n, tuple(a)) for (e, n, a) in log if n in PAULI or n == want[0]]
+        rep_base["observed_calls"] = ["%s on register #%s%s" % (fmt_call(n, a), getattr(e, "num", "?"),
+                                                                 "" if (id(e) in live_before or id(e) in live_after)
+                                                                 else " (NOT a register of any node)")
+                                      for (e, n, a) in F]
+        rep_base["exception"] = exc
+
+        def viol(kind, what, hard=False):
+            self.fail(i, kind, "%s [%s %s on qubit %s at position %d of register %s, idle t=%r, T1=%r, draw=%r]" % (
+                what, via, op, lab, pos, R["labels"], t, T1, x), hard=hard)
+
+        # ---- reference: joint pre-state (if registers merge) -> Pauli -> the operation, straight on an engine
+        def reference(letter):
+            ref = w.engine(pre)
+            if merge:
+                ref.maxQubits = 64
+                ref.absorb(w.engine(preT))
+            if letter:
+                getattr(ref, "apply_" + letter)(pos)
+            w.mbit = mbit
+            rret, rexc = None, None
+            try:
+                rret = invoke(ref, None, eop, pos, tpos, on_engine=True)
+                if op == "meas":
+                    ref.remove_qubit(pos)
+            except Exception as e:                                    # noqa: BLE001 — T / rotation on this backend
+                rexc = type(e).__name__
+            st_ = ref.qubitReg.to_array(standard_form=True).astype(int).tolist() if ref.activeQubits else None
+            return st_, rret, rexc
+
+        exp_exc = reference(None)[2]
+        # ---- our book follows the operation
+        if exc is None:
+            if merge:
+                R["labels"] += T["labels"]
+                self.regs.remove(T)
+            if op == "meas":
+                R["labels"].remove(lab)
+                if not R["labels"]:
+                    self.regs.remove(R)
+                del self.h[lab]
+        self.idle_since[lab] = now
+
+        if exc != exp_exc:
+            viol("raises", "the operation raised %s (%s); the same operation straight on an engine raises %s" % (
+                exc, rep_base.get("exception_text"), exp_exc), hard=True)
+        stale = [(e, n, a) for (e, n, a) in log if id(e) not in live_before and id(e) not in live_after]
+        if stale:
+            viol("stale-engine-call", "engine call(s) on an object that is not a register of any node: %s" % (
+                [fmt_call(n, a) for (e, n, a) in stale]))
+        # ---- the rate and the letters the statement allows (computed here, math.exp)
+        arg, e_np = w.exp_sample(t, T1)
+        e_ref = math.exp(arg)
+        p_h, p_ref = (1 - e_np) / 4, (1 - e_ref) / 4
+        allowed = allowed_letters(x, p_h, p_ref)
+        extra = F[:-1] if F and F[-1][1:] == want else F
+        got = None
+        ok_shape = False
+        if exc != exp_exc:
+            pass
+        elif not F or F[-1][1:] != want or F[-1][0] is not eng:
+            viol("on-request-missing", "the requested call %s on the live register is not the last engine call: %s" % (
+                fmt_call(*want), rep_base["observed_calls"]))
+        elif len(extra) > 1:
+            viol("on-more-than-one", "more than one extra engine call before the operation: %s" % rep_base["observed_calls"])
+        elif extra and extra[0][1] not in PAULI:
+            viol("on-not-a-pauli", "extra engine call %s" % fmt_call(*extra[0][1:]))
+        elif extra and extra[0][0] is not eng:
+            viol("on-other-register", "noise Pauli %s went to register #%s%s, the qubit lives at position %d of register #%s" % (
+                fmt_call(*extra[0][1:]), getattr(extra[0][0], "num", "?"),
+                "" if id(extra[0][0]) in live_after else " (deleted: absorbed into another register earlier)", pos,
+                getattr(eng, "num", "?")))
+        elif extra and extra[0][2] != (pos,):
+            viol("on-other-qubit", "noise Pauli %s applied at %r, the qubit operated on is at position %d" % (
+                extra[0][1], extra[0][2], pos))
+        else:
+            got = PAULI[extra[0][1]] if extra else None
+            ok_shape = True
+            if got not in allowed:
+                viol("on-wrong-choice", "draw %r with rate p=%r (thresholds %r, %r, %r) after %r s idle must give %s, code "
+                     "applied %s" % (x, p_ref, p_ref, 2 * p_ref, 3 * p_ref, t, sorted(map(str, allowed)), got))
+        # ---- state of the live register
+        if exc == exp_exc:
+            post = eng.qubitReg.to_array(standard_form=True).astype(int).tolist() if eng.activeQubits else None
+            tried = []
+            for letter in sorted(allowed, key=str):
+                rstate, rret, _ = reference(letter)
+                tried.append((letter, rstate == post and (eop != "measInplace" or exc is not None or ret == rret), rret))
+            if not any(m[1] for m in tried):
+                viol("on-state", "state/outcome of the live register differ from joint pre-state -> %s at position %d -> "
+                     "operation (outcome %r, reference %r)" % ("/".join(str(m[0]) for m in tried), pos, ret,
+                                                               [m[2] for m in tried]), hard=True)
+        # ---- nobody else's idle clock moves (bystanders locked with the register, the target of the gate)
+        moved = {l: (clocks_before[l], o.last_accessed) for l, o in others.items() if o.last_accessed != clocks_before[l]}
+        if moved:
+            viol("other-qubit-clock", "idle clock (last_accessed) of qubit(s) not operated on changed: %r" % moved)
+        # ---- tie: same (idle time, T1, draw, op) to the model, position = the qubit's current one
+        if exc == exp_exc:
+            _, e_np2 = w.exp_sample(now - last, T1)
+            arg2 = -(now - last) / T1
+            opw = eop if tpos is None else "%s %d" % (eop, tpos)
+            qline = "1 %d %d %d" % (bits(T1), bits(last), pos)
+            sline = "%d %d %d %d %s" % (bits(now), bits(x), bits(arg2), bits(e_np2), opw)
+            obs = "done " + " ".join(fmt_call(n, a) for (e, n, a) in F)
+            self.queries.append(("step %s | %s" % (qline, sline), "%d | %s" % (bits(sq.last_accessed), obs),
+                                 dict(rep_base, scenario=self.sc)))
+        self.reps[i] = rep_base
+        w.res_count(("node:%s:" % via) + op, got, merge, pos)
+
+
+def run_scenario(w, sc):
+    return NodeRun(w, sc).run()
+
+
+def shrink_scenario(w, sc, key):
+    """drop steps (never the last failing one's kind) while a violation with the same key remains"""
+    def fails_with(steps):
+        r = run_scenario(w, dict(sc, steps=steps))
+        return any(k == key for (_, k, _) in r.fails)
+    steps = list(sc["steps"])
+    budget = 40
+    changed = True
+    while changed and budget > 0:
+        changed = False
+        for j in range(len(steps) - 1, -1, -1):
+            if budget <= 0:
+                break
+            cand = steps[:j] + steps[j + 1:]
+            budget -= 1
+            if cand and fails_with(cand):
+                steps, changed = cand, True
+                break
+    return dict(sc, steps=steps)
+
+
+def report_scenario(w, res, sc, queries, seen, shrink=True):
+    r = run_scenario(w, sc)
+    for (i, key, what) in r.fails:
+        cls = tuple(key.split(":")[1::2])          # one report per (via, kind): the operation kind rarely matters
+        if cls in seen:
+            continue
+        seen.add(cls)
+        small = shrink_scenario(w, sc, key) if shrink else sc
+        r2 = run_scenario(w, small)
+        hit = [(j, k, wh) for (j, k, wh) in r2.fails if k == key]
+        if hit:
+            j, _, what2 = hit[0]
+            res.violation(key, what2, dict(small, failing_step=j, what=what2, detail=r2.reps.get(j)))
+        else:
+            res.violation(key, what, dict(sc, failing_step=i, what=what, detail=r.reps.get(i)))
+    if not r.fails:
+        queries.extend(r.queries)
+    return r
+
+
+def node_layouts():
+    """(name, nodes, set-up steps, labels worth operating on) — set-up at idle time 0, so no noise there"""
+    Z = [0.999, 0, "virt"]
+    A = "Alice"
+    out = []
+    out.append(("pair-target-rehomed", [A], [["new", "a", A], ["new", "b", A], ["op", "cnot", "a", "b"] + Z], ["b", "a"]))
+    out.append(("pair-cphase-rehomed", [A], [["new", "a", A], ["new", "b", A], ["op", "cphase", "b", "a"] + Z], ["a", "b"]))
+    out.append(("bell-absorbed", [A], [["new", "a", A], ["new", "b", A], ["new", "c", A], ["op", "H", "b", None] + Z,
+                                       ["op", "cnot", "b", "c"] + Z, ["op", "H", "a", None] + Z, ["op", "cnot", "a", "b"] + Z],
+                ["b", "c", "a"]))
+    out.append(("bell-absorbs", [A], [["new", "a", A], ["new", "b", A], ["new", "c", A], ["op", "H", "b", None] + Z,
+                                      ["op", "cnot", "b", "c"] + Z, ["op", "cphase", "c", "a"] + Z], ["a", "c", "b"]))
+    out.append(("inreg-then-absorbed", [A], [["new", "a", A], ["new", "b", A], ["inreg", "c", "b"], ["op", "H", "c", None] + Z,
+                                             ["op", "cnot", "c", "b"] + Z, ["op", "cnot", "a", "c"] + Z], ["c", "b"]))
+    out.append(("absorbed-then-shifted", [A], [["new", "a", A], ["new", "b", A], ["new", "c", A], ["op", "H", "b", None] + Z,
+                                               ["op", "cnot", "b", "c"] + Z, ["op", "cnot", "a", "b"] + Z,
+                                               ["op", "meas", "a", None, 0.999, 0, "virt"]], ["b", "c"]))
+    out.append(("absorbed-middle-removed", [A], [["new", "a", A], ["new", "b", A], ["new", "c", A], ["op", "H", "a", None] + Z,
+                                                 ["op", "cnot", "a", "b"] + Z, ["op", "cnot", "a", "c"] + Z,
+                                                 ["op", "meas", "b", None, 0.999, 1, "virt"]], ["c", "a"]))
+    B = "Bob"
+    out.append(("remote-simulated", [A, B], [["new", "a", A], ["new", "b", A], ["op", "H", "a", None] + Z,
+                                             ["send", "a", B], ["send", "b", B]], ["a", "b"]))
+    out.append(("remote-simulated-merged", [A, B], [["new", "a", A], ["new", "b", A], ["new", "c", A], ["op", "H", "a", None] + Z,
+                                                    ["send", "a", B], ["send", "b", B], ["send", "c", B],
+                                                    ["op", "cnot", "a", "b"] + Z, ["op", "cphase", "c", "a"] + Z],
+                ["b", "a", "c"]))
+    return out
+
+
+def band_draws(p):
+    """one interior draw per band (X, Y, Z, none) and the three thresholds themselves"""
+    return [0.5 * p, 1.5 * p, 2.5 * p, min(3.5 * p, 0.999), p, 2 * p, 3 * p]
+
+
+def node_stage(ctx, w, res, rng, queries):
+    """see the comment block above; directed layouts x operated qubit x operation kind x band, a bystander family,
+    and random histories on one node"""
+    import time as _time
+    t_start = _time.time()
+    seen = set()
+    n_sc = 0
+    dist = {}
+
+    def count(kind, got, merge, pos):
+        k = "%s%s" % (kind, ":merge" if merge else "")
+        dist[k] = dist.get(k, 0) + 1
+        dist["node:pauli:%s@pos%d" % (got, pos)] = dist.get("node:pauli:%s@pos%d" % (got, pos), 0) + 1
+    w.res_count = count
+
+    def go(sc):
+        nonlocal n_sc
+        n_sc += 1
+        r = report_scenario(w, res, sc, queries, seen)
+        for i in r.judged:
+            st = sc["steps"][i]
+            res.case({"node-scenario": sc["nodes"], "T1": sc["T1"], "prefix": sc["steps"][:i], "op": st}, nontrivial=True)
+        return r
+
+    layouts = node_layouts()
+    idles = [(3.0, 2.0), (0.7, 1.0), (40.0, 1.5)]
+    singles = [o for o in OPS if o not in ("cnot", "cphase")]
+    for (name, nodes, setup, labels) in layouts:
+        remote = len(nodes) > 1
+        for lab in labels:
+            ops = list(OPS) if ctx.thorough else (rng.sample(singles, 3) + [rng.choice(["cnot", "cphase"])])
+            for op in ops:
+                idle, T1 = rng.choice(idles)
+                t0 = rng.choice([1000.0, 1727712000.0])
+                p = (1 - math.exp(-((t0 + idle) - t0) / T1)) / 4
+                draws = band_draws(p) if ctx.thorough else band_draws(p)[:4] + [rng.choice(band_draws(p)[4:])]
+                for x in draws:
+                    via = "virt" if (remote or rng.random() < 0.6) else "sim"
+                    if op == "meas":
+                        via = "virt"
+                    others = [l for l in labels if l != lab] or [None]
+                    tgt = rng.choice(others) if op in ("cnot", "cphase") else None
+                    sc = {"nodes": nodes, "T1": T1, "t0": t0, "layout": name,
+                          "steps": [list(s) for s in setup] + [["tick", idle], ["op", op, lab, tgt, x, rng.randrange(2), via]]}
+                    go(sc)
+    # every operation kind x every band through the virtual qubit on a re-homed qubit, also in the quick tier
+    (name, nodes, setup, labels) = layouts[2]
+    p = (1 - math.exp(-3.0 / 2.0)) / 4
+    for op in OPS:
+        for x in band_draws(p)[:4]:
+            tgt = "c" if op in ("cnot", "cphase") else None
+            go({"nodes": nodes, "T1": 2.0, "t0": 1000.0, "layout": name,
+                "steps": [list(s) for s in setup] + [["tick", 3.0], ["op", op, "b", tgt, x, 0, "virt"]]})
+    # bystanders: b idles while a gate between a and c runs in its register (b is locked, not operated on),
+    # then b is operated on: its noise must reflect b's whole idle time
+    for (name, nodes, setup, labels) in (layouts[2], layouts[3], layouts[8]):
+        for g in ("cnot", "cphase"):
+            for x in band_draws(p)[:4]:
+                for op in (["Z", "H", "measInplace", "meas"] if ctx.thorough else rng.sample(["Z", "H", "measInplace", "meas", "X"], 2)):
+                    go({"nodes": nodes, "T1": 2.0, "t0": 1000.0, "layout": name + "+bystander",
+                        "steps": [list(s) for s in setup] + [["tick", 2.0], ["op", g, "a", "c", 0.999, 0, "virt"], ["tick", 1.0],
+                                                              ["op", op, "b", None, x, rng.randrange(2), "virt"]]})
+    # random histories on one node: creations, merges in both orders, removals, idle periods, noisy operations
+    for _ in range(ctx.scale(60, 900)):
+        go(random_scenario(w, rng))
+    res.dist.update(dist)
+    res.count("node-scenarios", n_sc)
+    res.notes.append("node scenarios: %d scenarios in %.1f s" % (n_sc, _time.time() - t_start))
+    res.notes.append("'idle for t seconds' is measured from simulatedQubit.last_accessed, which the code sets at creation and at "
+                     "each noise application (every operation ON that qubit while noise is enabled) and nowhere else; the "
+                     "oracle keeps its own clock per qubit by exactly that rule (taking the qubit lock, being the target or a "
+                     "bystander of another qubit's two-qubit gate, or being re-homed by a local register merge does not "
+                     "restart it) and requires every other qubit's last_accessed to be untouched by an operation")
+
+
+def random_scenario(w, rng):
+    A = "Alice"
+    T1 = rng.choice([0.5, 1.0, 2.0, 3.0, 40.0])
+    steps, labels, now_idle = [], [], {}
+    names = list("abcdef")
+    for _ in range(rng.randrange(2, 4)):
+        l = names.pop(0)
+        steps.append(["new", l, A])
+        labels.append(l)
+        now_idle[l] = 0.0
+    for _ in range(rng.randrange(5, 12)):
+        r = rng.random()
+        if r < 0.12 and names and len(labels) < 5:
+            l = names.pop(0)
+            if labels and rng.random() < 0.4:
+                steps.append(["inreg", l, rng.choice(labels)])
+            else:
+                steps.append(["new", l, A])
+            labels.append(l)
+            now_idle[l] = 0.0
+            continue
+        if r < 0.45:
+            dt = rng.choice([0.0, 1e-3, 0.3, 1.0, 2.0, 7.5, 100.0])
+            steps.append(["tick", dt])
+            for l in labels:
+                now_idle[l] += dt
+            continue
+        if not labels:
+            continue
+        lab = rng.choice(labels)
+        kinds = [o for o in OPS if o != "meas"] + (["cnot", "cphase"] * 2 if len(labels) > 1 else [])
+        if len(labels) < 2:
+            kinds = [o for o in kinds if o not in ("cnot", "cphase")]
+        op = "meas" if rng.random() < 0.12 else rng.choice(kinds)
+        tgt = rng.choice([l for l in labels if l != lab]) if op in ("cnot", "cphase") else None
+        p = (1 - math.exp(-now_idle[lab] / T1)) / 4
+        x = rng.choice(band_draws(p)) if (p > 0 and rng.random() < 0.7) else rng.random()
+        via = "virt" if (op == "meas" or rng.random() < 0.7) else "sim"
+        steps.append(["op", op, lab, tgt, x, rng.randrange(2), via])
+        now_idle[lab] = 0.0
+        if op == "meas":
+            labels.remove(lab)
+    return {"nodes": [A], "T1": T1, "t0": rng.choice([1000.0, 1727712000.0]), "layout": "random", "steps": steps}
 
 
 def validate_table(res, tab):
